@@ -14,6 +14,8 @@ def main():
     if tier not in ("quick", "thorough"):
         tier = "quick"
     seed = int(os.environ.get("VERIF_SEED", "20260923"))
+    os.environ["VERIF_TIER"] = tier
+    os.environ.setdefault("VERIF_PMAP_TIMEOUT", "300" if tier == "quick" else "7200")
     from harness import build
     pkg = build.ensure_build(guard=False)
     sys.path.insert(0, pkg)
